@@ -234,19 +234,31 @@ fn ss_fixture(proto: &str, writes: &[usize], producer: &str, addr_kind: usize, r
         let mut salt = vec![0u8; n];
         rng.fill(&mut salt[..]);
         if c.is_2022() {
-            let r = rc::Req2022 { typ: 0, ts: rc::unix_now(), addr: addr.clone(), padding: if req_writes[0].is_empty() { 17 } else { 0 }, first_payload: req_writes[0].clone(), salt };
+            // a legal choice the real client never makes: random padding although there is payload is not allowed,
+            // but splitting the first write between the header and a chunk is
+            let head = req_writes[0].len().min(0xff00);
+            let r = rc::Req2022 { typ: 0, ts: rc::unix_now(), addr: addr.clone(), padding: if req_writes[0].is_empty() { 900 } else { 0 }, first_payload: req_writes[0][..head].to_vec(), salt };
             let mut s = rc::ss2022_request(c, &cp, &r);
+            for piece in req_writes[0][head..].chunks(0xffff) {
+                s.chunk(piece);
+            }
             for w in &req_writes[1..] {
-                s.chunk(w);
+                for piece in w.chunks(0xffff) {
+                    s.chunk(piece);
+                }
             }
             c2s.extend_from_slice(&s.out);
         } else {
             let mut s = rc::legacy_stream(c, &cp, &salt);
             let mut first = addr.socks();
             first.extend_from_slice(&req_writes[0]);
-            s.chunk(&first);
+            for piece in first.chunks(0x3fff) {
+                s.chunk(piece);
+            }
             for w in &req_writes[1..] {
-                s.chunk(w);
+                for piece in w.chunks(0x3fff) {
+                    s.chunk(piece);
+                }
             }
             c2s.extend_from_slice(&s.out);
         }
@@ -308,15 +320,23 @@ fn ss_fixture(proto: &str, writes: &[usize], producer: &str, addr_kind: usize, r
         let mut salt = vec![0u8; n];
         rng.fill(&mut salt[..]);
         if c.is_2022() {
-            let mut s = rc::ss2022_response(c, &master_s2c, &salt, 1, rc::unix_now(), &c2s[..n], &plains[0]);
+            let head = plains[0].len().min(0xffff);
+            let mut s = rc::ss2022_response(c, &master_s2c, &salt, 1, rc::unix_now(), &c2s[..n], &plains[0][..head]);
+            for piece in plains[0][head..].chunks(0xffff) {
+                s.chunk(piece);
+            }
             for w in &plains[1..] {
-                s.chunk(w);
+                for piece in w.chunks(0xffff) {
+                    s.chunk(piece);
+                }
             }
             s2c.extend_from_slice(&s.out);
         } else {
             let mut s = rc::legacy_stream(c, &cp, &salt);
             for w in &plains {
-                s.chunk(w);
+                for piece in w.chunks(0x3fff) {
+                    s.chunk(piece);
+                }
             }
             s2c.extend_from_slice(&s.out);
         }
@@ -369,7 +389,13 @@ fn vmess_fixture(proto: &str, writes: &[usize], producer: &str, addr_kind: usize
         let mut w = rv::seal_request_header(&ck, &aid, &rng.random(), &r.plain_header());
         let mut body = rv::VmessBody::new(option, security, r.key, r.iv, r.key, r.iv);
         for p in &req_writes {
-            body.chunk(p, &mut w);
+            if udp {
+                body.chunk(p, &mut w);
+            } else {
+                for piece in p.chunks(16000) {
+                    body.chunk(piece, &mut w);
+                }
+            }
         }
         c2s.extend_from_slice(&w);
     } else {
@@ -448,7 +474,13 @@ fn vmess_fixture(proto: &str, writes: &[usize], producer: &str, addr_kind: usize
         let mut w = rv::seal_response_header(&rk, &ri, r.resp_auth, r.option);
         let mut body = rv::VmessBody::new(r.option, r.security, rk, ri, r.key, r.iv);
         for p in &plains {
-            body.chunk(p, &mut w);
+            if udp {
+                body.chunk(p, &mut w);
+            } else {
+                for piece in p.chunks(16000) {
+                    body.chunk(piece, &mut w);
+                }
+            }
         }
         s2c.extend_from_slice(&w);
     }
